@@ -329,6 +329,23 @@ class CertProperty:
                         {'p': '%s%s%s' % (l[1], l[2], l[5]), 't': 4}, {'p': '%s%s' % (l[0], l[2]), 't': 5}]
             inp = ''.join(rng.choice(letters) for _ in range(8))
             progs.append({'name': 'nm%d' % i, 'modes': [{'name': 'M', 'patterns': pats, 'transitions': []}], 'inputs': [inp]})
+        # repetitions whose body can match the empty string (epsilon cycles in the Thompson NFA), entered from a prefix,
+        # followed by a suffix, inside patterns and lookaheads
+        bodies = ['a?', 'a*b*', 'a?b?', '(a|b*)', '(a*)*', '(a?b)?', '(|a)(|b)']
+        k = 0
+        for body in bodies:
+            for op in ['+', '*', '{2,}']:
+                for pre, suf in [('c', ''), ('', 'c'), ('c', 'c')]:
+                    if tier == 'quick' and (k % 3) != 0:
+                        k += 1
+                        continue
+                    pat = '%s(%s)%s%s' % (pre, body, op, suf)
+                    pats = [{'p': pat, 't': 1}]
+                    if k % 2:
+                        pats = [{'p': 'x', 't': 7, 'la': {'pos': True, 'p': pat}}, {'p': '[abc]', 't': 8}]
+                    progs.append({'name': 'epscycle%d' % k, 'modes': [{'name': 'M', 'patterns': pats, 'transitions': []}],
+                                  'inputs': ['caab', 'xcaab', 'cabab']})
+                    k += 1
         # shared token types: several patterns of one mode with the SAME token type (legal; only the priority
         # among them is affected by known finding D8, the accepted languages per token type are not): chains of
         # different lengths over one class need several refinement rounds of the minimizer, and terminal_ids has
